@@ -244,11 +244,17 @@ pub fn run_check(replay: Option<Value>) -> i32 {
         y0: vec![gfun(0.0)],
         linear_homogeneous: false,
     };
-    let sprobs: Vec<(Prob, f64)> = vec![(base(Base::Harmonic(1.3)), 3.0), (warp(&base(Base::Logistic(2.0)), Warp::Sin), 2.5), (warp(&base(Base::Harmonic(1.0)), Warp::Quad), 2.0), (tracking, 10.0)];
+    let mut sprobs: Vec<(Prob, f64)> = vec![(base(Base::Harmonic(1.3)), 3.0), (warp(&base(Base::Logistic(2.0)), Warp::Sin), 2.5), (warp(&base(Base::Harmonic(1.0)), Warp::Quad), 2.0), (tracking, 10.0)];
+    if crate::report::is_thorough() {
+        sprobs.push((base(Base::Spiral(0.3, 2.0)), 3.0));
+        sprobs.push((base(Base::Lin3), 2.0));
+        sprobs.push((warp(&base(Base::Riccati), Warp::Sin), 1.0));
+    }
+    let stols: Vec<f64> = if crate::report::is_thorough() { vec![1e-7, 1e-10, 1e-5, 1e-9] } else { vec![1e-7, 1e-10] };
     for m in crate::run::M6 {
         for backward in [false, true] {
             for (pi, (p0, span)) in sprobs.iter().enumerate() {
-              for (tli, tl) in [1e-7, 1e-10].iter().enumerate() {
+              for (tli, tl) in stols.iter().enumerate() {
                 let tl = *tl;
                 let pr = if backward { reflect(p0) } else { p0.clone() };
                 let xend = if backward { -*span } else { *span };
